@@ -34,8 +34,8 @@ func (r *Rng) Intn(n int) int {
 	return int(r.U64() % uint64(n))
 }
 func (r *Rng) Chance(num, den int) bool { return r.Intn(den) < num }
-func (r *Rng) Fork() *Rng              { return NewRng(r.U64()) }
-func Pick[T any](r *Rng, xs []T) T     { return xs[r.Intn(len(xs))] }
+func (r *Rng) Fork() *Rng               { return NewRng(r.U64()) }
+func Pick[T any](r *Rng, xs []T) T      { return xs[r.Intn(len(xs))] }
 
 // ---------- hex ----------
 
@@ -113,6 +113,34 @@ func (o *Oracle) Send(lines ...string) {
 	for _, l := range lines {
 		if r := o.Ask(l); !strings.HasPrefix(r, "ok") {
 			infra("oracle answered %q to %q", r, l)
+		}
+	}
+}
+
+// SendMany pipelines many requests whose answers must all be "ok" (no round trip per line).
+func (o *Oracle) SendMany(lines []string) {
+	o.mu.Lock()
+	defer o.mu.Unlock()
+	const chunk = 2000 // stay well below the pipe buffers in both directions
+	for start := 0; start < len(lines); start += chunk {
+		end := start + chunk
+		if end > len(lines) {
+			end = len(lines)
+		}
+		for _, l := range lines[start:end] {
+			if strings.ContainsAny(l, "\n\r") {
+				infra("oracle request contains newline: %q", l)
+			}
+			o.in.WriteString(l)
+			o.in.WriteByte('\n')
+		}
+		o.in.Flush()
+		for i := start; i < end; i++ {
+			resp, err := o.out.ReadString('\n')
+			if err != nil || !strings.HasPrefix(resp, "ok") {
+				infra("oracle answered %q to %q (%v)", strings.TrimSpace(resp), lines[i], err)
+			}
+			o.n++
 		}
 	}
 }
